@@ -680,6 +680,17 @@ def partialNodeOn (S : Schema) : Nat → List Node → Nat → Bool → Bool
 def Slice.noPartialNode (S : Schema) (sl : Slice) : Bool :=
   !partialNodeOn S sl.openEnd sl.content sl.openStart true
 
+/-! ### the invariant behind the end half of `fit_emits_wf` (Props/C11.lean), as a decidable predicate -/
+
+/-- `placed` and the frontier are **in step**: the frontier is not empty, every entry holds a match,
+    and the last-child chain of non-leaf nodes of `placed` is at least as long as the frontier is deep
+    (`add_to_fragment(placed, depth, …)` finds the node the top frontier entry stands for).  A
+    specification predicate over the model's state, evaluated by the driver (op `fitEmit`) in the state
+    `Fitter.__init__` builds and after every iteration of the loop. -/
+def FitState.inStepB (st : FitState) : Bool :=
+  !st.frontier.isEmpty && st.frontier.all (fun it => it.st.isSome) &&
+    decide (st.frontier.length - 1 ≤ spineR st.placed)
+
 /-! ### decidable hypotheses of the deletion-totality theorem (Props/C11.lean `delete_total`) -/
 
 /-- every generatable type that labels an edge of a content automaton — every type `fill_before` can
